@@ -47,7 +47,64 @@ def datasets(rng, N, n_coef):
     return out
 
 
+def mixed_provenance(ctx, rng):
+    """Basis sets of different provenance in one solve: one order from the full group, another built by a different object from the
+    operations without fractional translation (fewer lattice points: another n_lp, another compact layout), handed over through the
+    setter.  The returned coefficients must satisfy the normal equations of the design built from exactly these bases."""
+    import spglib
+    from symfc import Symfc
+    from symfc.basis_sets import FCBasisSetO2, FCBasisSetO3, FCBasisSetO4
+    from gens import atoms_of, base_cells, make_supercell
+    from solvers import expanded_basis
+
+    classes = {2: FCBasisSetO2, 3: FCBasisSetO3, 4: FCBasisSetO4}
+    for cname, diag in [("tri2_P1", (2, 1, 1)), ("mono_P", (2, 1, 1))] + ([] if ctx.quick else [("cscl", (2, 1, 1)), ("tri1", (3, 1, 1))]):
+        sc = make_supercell(base_cells()[cname], diag, rng=rng, shuffle=True)
+        at = atoms_of(sc)
+        N = len(sc["numbers"])
+        ops = spglib.get_symmetry((sc["lattice"], sc["positions"], sc["numbers"]))
+        rots, trans = np.asarray(ops["rotations"]), np.asarray(ops["translations"])
+        t0 = [i for i in range(len(rots)) if np.abs(trans[i] - np.rint(trans[i])).max() < 1e-9]
+        if len(t0) == len(rots) or not t0 or not (rots[t0[0]] == np.eye(3, dtype=int)).all():
+            continue
+        sub = {"rotations": rots[t0], "translations": trans[t0]}
+        for orders, reduced in (((3, 4), 4), ((3, 4), 3), ((2, 3), 2), ((2, 3), 3), ((2, 3, 4), 3)):
+            if 4 in orders and N > 4:
+                continue
+            try:
+                basis = {m: classes[m](at, spacegroup_operations=sub if m == reduced else None).run() for m in orders}
+            except (ValueError, IndexError):
+                continue
+            nb = {m: basis[m].basis_set.shape[1] for m in orders}
+            if min(nb.values()) == 0 or sum(nb.values()) > 400:
+                continue
+            ncoef = sum(nb.values())
+            n = int(np.ceil(ncoef / (3 * N))) + 5
+            d, f = rng.normal(size=(n, N, 3)) * 0.05, rng.normal(size=(n, N, 3))
+            o = Symfc(at, displacements=d, forces=f)
+            o.basis_set = dict(basis)
+            ctx.case({"cell": sc["name"], "orders": list(orders), "basis_without_fractional_translations": reduced, "n_coef": int(ncoef)}, nontrivial=True)
+            ctx.count("mixed-provenance-bases")
+            try:
+                o.solve(orders=list(orders), is_compact_fc=False)
+            except (np.linalg.LinAlgError, ValueError, RuntimeError, IndexError) as e:
+                ctx.count("outcome:" + type(e).__name__)
+                continue
+            X = dense_design(basis, orders, d)
+            y = f.reshape(-1)
+            c = np.concatenate([expanded_basis(basis[m], m, N).reshape(nb[m], -1) @ np.asarray(o.force_constants[m]).reshape(-1) for m in orders])
+            g = X.T @ (y - X @ c)
+            scale = max(np.abs(X.T @ y).max(), np.abs(X.T @ X).max() * max(np.abs(c).max(), 1e-300), 1e-300)
+            rel = float(np.abs(g).max() / scale)
+            if not rel <= 1e-7:
+                ctx.fail("oracle", "C06/oracle/normal-eq/mixed-provenance", f"{sc['name']} orders {orders}, order-{reduced} basis built from the {len(t0)} operations without fractional translation (of {len(rots)}) and handed over: "
+                         f"returned coefficients violate the normal equations (relative residual {rel:.2e})",
+                         replay={"cell": sc["name"], "lattice": sc["lattice"].tolist(), "positions": sc["positions"].tolist(), "numbers": [int(x) for x in sc["numbers"]], "orders": list(orders), "reduced_order": reduced,
+                                 "disps": d.tolist(), "forces": f.tolist(), "rel_residual": rel}, has_input=True)
+
+
 def check(ctx):
+    mixed_provenance(ctx, np.random.default_rng(ctx.seed + 91))
     import scipy.linalg.lapack as lp
     import symfc.utils.solver_funcs as sf
 
